@@ -176,12 +176,13 @@ def replay_rewrite(target, model, nr, nrho, w):
 
 
 def api_case(target, elements, pairs, nr, nrho, route="class", rot=0, dip=None, quad=None, extra_vcs=None, rewrite=True, surplus=None, shared=None, fs_undeclared=None,
-             written_first=None, energy_override=None, cutoff_arg=False):
+             written_first=None, energy_override=None, cutoff_arg=False, fs_on_demand=False):
   """written_first: another target of the same family; the same python objects (lists, potentials) are written in that format
   first - the caller's objects are not the writer's to change"""
   fs = target.endswith("_fs")
   model = EC.Model(elements, pairs, fs=fs, dip=dip, quad=quad, pair_list_rotation=rot, surplus=surplus, shared=shared, fs_undeclared=fs_undeclared)
   model.energy_override = set(k for k in (energy_override or []) if model.pairs.get(k) is not None)
+  model.fs_on_demand = bool(fs_on_demand and fs)
   res = new_result("api %s %s nr=%d nrho=%d %s%s" % (target, model.describe(), nr, nrho, route, " after the same objects were written as %s" % written_first if written_first else ""))
 
   def fn():
@@ -437,6 +438,9 @@ def shared_and_undeclared_cases(target, tier):
           continue
         out.append(Case("api %s %s one object for %s nr=%d nrho=%d %s" % (target, "/".join(order), "=".join(shared[0]), nr, nrho, route), api_case, target=target,
                         elements=order, pairs=st, nr=nr, nrho=nrho, route=route, rot=i, shared=shared))
+    if fs:
+      out.append(Case("api %s %s densities built on demand" % (target, "/".join(order)), api_case, target=target, elements=order, pairs=st, nr=3, nrho=2,
+                      route="class" if i % 2 else "func", rot=i, fs_on_demand=True))
     if fs and len(order) > 1:
       und = [(e0, e1)] if i % 2 else [(e1, e0), (e1, e1)]
       out.append(Case("api %s %s undeclared %s" % (target, "/".join(order), und), api_case, target=target, elements=order, pairs=st, nr=3, nrho=3,
@@ -497,4 +501,19 @@ def cutoff_arg_cases(target, tier):
     cov = EC.covering_pair_states(order, seed=i + 11)
     out.append(Case("api %s %s explicit cutoff argument" % (target, "/".join(order)), api_case, target=target, elements=order, pairs=cov[i % len(cov)], nr=4, nrho=3,
                     route="func", rot=i, rewrite=False, cutoff_arg=True))
+  return out
+
+
+def long_label_cases(target, tier):
+  """species labels of eight characters (block headers have two label fields side by side)"""
+  from symx.run import Case
+  out = []
+  for i, order in enumerate([("Fe_gamma", "Al", "Fe_alpha"), ("Al", "Fe_alpha")] + ([] if tier == "quick" else [("Fe_alpha", "Fe_gamma")])):
+    cov = EC.covering_pair_states(order, seed=i + 13)
+    for j in range(2 if tier == "quick" else 4):
+      extra = {}
+      if target == "eam_adp":
+        extra = dict(dip=cov[(j + 1) % len(cov)], quad=cov[(j + 2) % len(cov)])
+      out.append(Case("api %s %s #%d" % (target, "/".join(order), j), api_case, target=target, elements=order, pairs=cov[(3 * j + i) % len(cov)], nr=3, nrho=2 + j % 2,
+                      route="class" if j % 2 or target == "eam_adp" else "func", rot=j, **extra))
   return out
